@@ -17,6 +17,10 @@ for c, meta in props.items():
     if not d.strip():
         print("empty diff for", c); continue
     name = f"revfix_{'_'.join(meta['props'])}_{c}"
+    dst = os.path.join(VERIF, "mutants", name + ".patch")
+    ok = subprocess.run(["patch", "-p1", "-s", "--dry-run", "-d", "/repo"], input=d, capture_output=True, text=True).returncode == 0
+    if not ok and os.path.exists(dst):
+        print("kept (ported by hand with tools/port_patch.py; the plain reverse diff no longer applies)", name); continue
     open(os.path.join(VERIF, "mutants", name + ".patch"), "w").write(d)
     json.dump({"props": meta["props"], "note": "re-introduces: " + meta["note"]}, open(os.path.join(VERIF, "mutants", name + ".json"), "w"), indent=1)
     print("wrote", name)
